@@ -7,22 +7,22 @@ Open Scope R_scope.
 
 Ltac unfv := unfold dot, cross, vsub, vadd, vneg, vscale, vdivs, vx, vy, vz; cbn [fst snd add sub mul div opp Rops].
 
-(* the guards replace only an exactly vanishing measure; they are inactive in particular above the machine epsilon *)
-Lemma guard_zero_off x : Rltb x (eps52 Rops) = false -> guard_zero Rops x = x.
+(* the guards replace only an exactly vanishing measure *)
+Lemma guard_zero_off x : 0 < x -> guard_zero Rops x = x.
 Proof.
-  intros H. apply Rltb_false in H. pose proof eps52_pos. unfold guard_zero. cbn [eqb zero Rops].
+  intros H. unfold guard_zero. cbn [eqb zero Rops].
   destruct (Reqb x 0) eqn:E; [apply Reqb_true in E; lra|reflexivity].
 Qed.
-Lemma guard_abs_off x : Rltb (Rabs x) (eps52 Rops) = false -> guard_abs Rops x = x.
+Lemma guard_abs_off x : x <> 0 -> guard_abs Rops x = x.
 Proof.
-  intros H. apply Rltb_false in H. pose proof eps52_pos. unfold guard_abs, guard_zero. cbn [eqb zero Rops].
-  destruct (Reqb x 0) eqn:E; [apply Reqb_true in E; subst; rewrite Rabs_R0 in H; lra|reflexivity].
+  intros H. unfold guard_abs, guard_zero. cbn [eqb zero Rops].
+  destruct (Reqb x 0) eqn:E; [apply Reqb_true in E; contradiction|reflexivity].
 Qed.
 
 (* ------------------------------------------------------------------ triangles: gradient *)
 Definition tri_guard_off (v : list V3) (t : tri) : Prop :=
   let '(e0, e1, e2) := tri_edges Rops v t in
-  Rltb (norm Rops (crossR e2 (vneg Rops e1))) (eps52 Rops) = false.
+  0 < norm Rops (crossR e2 (vneg Rops e1)).
 
 Lemma code_normal_is_tri_N p0 p1 p2 :
   crossR (subR p1 p0) (vneg Rops (subR p0 p2)) = tri_N p0 p1 p2.
@@ -36,7 +36,7 @@ Proof.
   unfold tri_guard_off, tria_grad1, tri_edges, tri_pts.
   generalize (getv Rops v a) (getv Rops v b) (getv Rops v c). intros p0 p1 p2.
   rewrite code_normal_is_tri_N. intros Hg. rewrite (guard_zero_off _ Hg). cbn [one Rops].
-  apply Rltb_false in Hg. assert (E := eps52_pos).
+  assert (E := eps52_pos).
   unfold norm, norm2 in *. cbn [sqrtK Rops] in *. fold (tri_NN p0 p1 p2) in *.
   set (L := sqrt (tri_NN p0 p1 p2)) in *.
   assert (HN := tri_NN_nonneg p0 p1 p2).
@@ -80,7 +80,7 @@ Proof.
   unfold tri_guard_off, tria_div1, tri_edges, tri_pts.
   generalize (getv Rops v a) (getv Rops v b) (getv Rops v c). intros p0 p1 p2.
   rewrite code_normal_is_tri_N. intros Hg. rewrite (guard_zero_off _ Hg). cbn [one Rops].
-  apply Rltb_false in Hg. assert (E := eps52_pos).
+  assert (E := eps52_pos).
   unfold norm, norm2 in *. cbn [sqrtK Rops] in *. fold (tri_NN p0 p1 p2) in *.
   unfold tri_area. set (L := sqrt (tri_NN p0 p1 p2)) in *.
   assert (HN := tri_NN_nonneg p0 p1 p2).
@@ -105,7 +105,7 @@ Proof.
   unfold tri_guard_off, tria_div2_1, tri_edges, tri_pts.
   generalize (getv Rops v a) (getv Rops v b) (getv Rops v c). intros p0 p1 p2.
   rewrite code_normal_is_tri_N. intros Hg. rewrite (guard_zero_off _ Hg). cbn [one Rops].
-  apply Rltb_false in Hg. assert (E := eps52_pos).
+  assert (E := eps52_pos).
   unfold norm, norm2 in *. cbn [sqrtK Rops] in *. fold (tri_NN p0 p1 p2) in *.
   unfold tri_area. set (L := sqrt (tri_NN p0 p1 p2)) in *.
   assert (HN := tri_NN_nonneg p0 p1 p2).
@@ -193,7 +193,7 @@ Qed.
 (* ------------------------------------------------------------------ tetrahedra *)
 Definition tet_guard_off (v : list V3) (t : tet) : Prop :=
   let '(p0, p1, p2, p3) := tet_pts Rops v t in
-  Rltb (Rabs (dotR (subR p3 p0) (crossR (subR p1 p0) (subR p0 p2)))) (eps52 Rops) = false.
+  dotR (subR p3 p0) (crossR (subR p1 p0) (subR p0 p2)) <> 0.
 
 Lemma code_det p0 p1 p2 p3 : dotR (subR p3 p0) (crossR (subR p1 p0) (subR p0 p2)) = - tet_det p0 p1 p2 p3.
 Proof. r3 p0; r3 p1; r3 p2; r3 p3. unfold tet_det. unfv. ring. Qed.
@@ -206,9 +206,9 @@ Proof.
   unfold tet_guard_off, tet_grad1, tet_pts.
   generalize (getv Rops v a) (getv Rops v b) (getv Rops v c) (getv Rops v d). intros p0 p1 p2 p3.
   intros Hg. rewrite (guard_abs_off _ Hg). cbn [one Rops].
-  apply Rltb_false in Hg. assert (E := eps52_pos). rewrite code_det in *.
+  rewrite code_det in *.
   assert (Hd : tet_det p0 p1 p2 p3 <> 0).
-  { intros Z. rewrite Z, Ropp_0, Rabs_R0 in Hg. lra. }
+  { intros Z. apply Hg. rewrite Z. ring. }
   unfold tet_grad, tet_gradnum. revert Hd. generalize (tet_det p0 p1 p2 p3). intros D Hd.
   r3 p0; r3 p1; r3 p2; r3 p3. unfv. f_equal; [f_equal|]; field; lra.
 Qed.
@@ -240,9 +240,9 @@ Theorem tet_div1_adjoint v f a b c d X : tet_guard_off v (a, b, c, d) ->
 Proof.
   unfold tet_guard_off, tet_div1, tet_pts.
   generalize (getv Rops v a) (getv Rops v b) (getv Rops v c) (getv Rops v d). intros p0 p1 p2 p3.
-  intros Hg. apply Rltb_false in Hg. assert (E := eps52_pos). rewrite code_det in Hg.
+  intros Hg. rewrite code_det in Hg.
   assert (Hd : tet_det p0 p1 p2 p3 <> 0).
-  { intros Z. rewrite Z, Ropp_0, Rabs_R0 in Hg. lra. }
+  { intros Z. apply Hg. rewrite Z. ring. }
   assert (Ed : dotR (subR p3 p0) (crossR (subR p1 p0) (subR p2 p0)) = tet_det p0 p1 p2 p3).
   { r3 p0; r3 p1; r3 p2; r3 p3. unfold tet_det. unfv. ring. }
   rewrite Ed. rewrite signK_R by assumption.
@@ -277,10 +277,10 @@ Lemma guard_off_NN v a b c : tri_guard_off v (a, b, c) ->
   let '(p0, p1, p2) := tri_pts Rops v (a, b, c) in 0 < tri_NN p0 p1 p2.
 Proof.
   unfold tri_guard_off, tri_edges, tri_pts. generalize (getv Rops v a) (getv Rops v b) (getv Rops v c). intros p0 p1 p2.
-  rewrite code_normal_is_tri_N. intros Hg. apply Rltb_false in Hg. assert (E := eps52_pos).
+  rewrite code_normal_is_tri_N. intros Hg.
   unfold norm, norm2 in Hg. cbn [sqrtK Rops] in Hg. fold (tri_NN p0 p1 p2) in Hg.
   destruct (Rle_lt_or_eq_dec _ _ (tri_NN_nonneg p0 p1 p2)) as [Hp|Hz]; [exact Hp|].
-  exfalso. apply Hg. rewrite <- Hz, sqrt_0. exact E.
+  exfalso. rewrite <- Hz, sqrt_0 in Hg. lra.
 Qed.
 
 (* the entries of div(X) sum to zero *)
